@@ -77,6 +77,12 @@ def tasks(tier):
         cfg = dict(M=4, per_class=pc, max_unknown=mu, alphabet=["ok", "x:U", "x:T", "r:U"],
                    sleeper="policy")
         out.append({"family": "permit-sugar", "cfg": cfg, "entry": e, "bound": 0})
+    # a sleep handler answering the plain strings "defer" / "abort": if the library accepts them
+    # they mean what they say (no further attempt); if it rejects them the run ends
+    for ans, e in itertools.product(["S:defer", "S:abort"], Q4):
+        cfg = dict(M=3, alphabet=["ok", "x:T", "r:T"], handler="call", handler_menu=[ans],
+                   max_unknown=None)
+        out.append({"family": "permit-string-answer", "cfg": cfg, "entry": e, "bound": 0})
     # an abort predicate that answers with a truthy value other than True (a count, numpy.bool_)
     for mode, e in itertools.product(["answer", "flag"], Q4 + ["Policy.call", "RetryPolicy.execute"]):
         cfg = dict(M=3, alphabet=["ok", "x:T", "r:T"], abort=True, abort_mode=mode, abort_truthy=True,
@@ -237,11 +243,16 @@ def monitor(w, cfg):
                 key = F1_KEY if a.must == {"MAX_ATTEMPTS_GLOBAL"} else GRANT_KEY
                 v.append((key, f"attempt {a.i} ({op.label}, elapsed {a.elapsed}) must not be "
                                f"retried ({sorted(a.must)}) but the library granted: {grants}"))
+            if not a.last and any(str(h[4]) in ("S:defer", "S:abort") for h in a.handlers):
+                v.append(("c03.attempt-after-handler-stop",
+                          f"the sleep handler answered {a.handlers[-1][4][2:]!r} after attempt {a.i} "
+                          f"yet another attempt was made"))
             if a.last and not a.may:
                 just = []
                 if a.abort_polled:
                     just.append("abort")
-                if any(h[4] in ("DEFER", "ABORT") for h in a.handlers):
+                if any(h[4] in ("DEFER", "ABORT") or str(h[4]).startswith(("S:", "BAD"))
+                       for h in a.handlers):
                     just.append("handler")
                 if any((s[4] - call.t_start) >= D for s in a.sleeps):
                     just.append("deadline during sleep")
